@@ -27,7 +27,7 @@ import shutil
 import socket
 import tempfile
 
-from harness import common
+from harness import common, names
 from harness.common import hx
 from harness.sched import core
 
@@ -75,7 +75,7 @@ class ShimQueue:
         extra = {}
         if self.name == 'reqq' and item == pp().SHUTDOWN_SIGNAL and self.R.interrupt_raised:
             # shutdown() after Ctrl-C: what is unfinished now must have been cancelled
-            extra['uncancelled'] = [t for t, st in sorted(self.R.real_monitor._transfer_states.items())
+            extra['uncancelled'] = [t for t, st in sorted(states_of(self.R.real_monitor).items())
                                     if not st.done and st.exception is None]
         self.R.log('put', q=self.name, item=item, **extra)
 
@@ -86,6 +86,11 @@ class ShimQueue:
         item = self.items.pop(0)
         self.R.log('get', q=self.name, item=item)
         return item
+
+
+def states_of(monitor):
+    """TransferMonitor's id -> TransferState table (its only dict attribute), whatever it is called."""
+    return getattr(monitor, names.find_attr(monitor, lambda v: isinstance(v, dict), '_transfer_states'))
 
 
 class JobLock:
@@ -104,7 +109,7 @@ class JobLock:
         return self.inner.acquire(*a, **k)
 
     def release(self):
-        v = self.state._jobs_to_complete
+        v = self.state.jobs_to_complete
         self.inner.release()
         rec = self.R.log('mon', m='notify_job_complete', args=(self.t,), r=v, inlock=v)
         self.R.pending_decr[self.R.sched.me()] = rec
@@ -141,7 +146,7 @@ class LoggingMonitor:
             R.sched.yield_point('mon.' + name)
             extra = {}
             if name == 'notify_cancel_all_in_progress':
-                extra['undone'] = [t for t, st in sorted(self._real._transfer_states.items())
+                extra['undone'] = [t for t, st in sorted(states_of(self._real).items())
                                    if not st.done]
             if name == 'poll_for_result' and R.interrupt_in_result():
                 R.log('mon', m='poll_interrupted', args=args, r=None)
@@ -158,8 +163,9 @@ class LoggingMonitor:
                 R.pending_decr.pop(me)['r'] = r
                 return r
             if name == 'notify_new_transfer':
-                st = self._real._transfer_states[r]
-                st._job_lock = JobLock(R, st._job_lock, r, st)
+                st = states_of(self._real)[r]
+                jl = names.find_attr(st, names.lock_like, '_job_lock')
+                setattr(st, jl, JobLock(R, getattr(st, jl), r, st))
             R.log('mon', m=name, args=args, r=r, **extra)
             return r
         return call
@@ -362,7 +368,7 @@ class Run:
         self.real_monitor = m.TransferMonitor()
         # the id allocation and its log record stay in one atomic segment (every
         # monitor call is preceded by a yield point of the facade anyway)
-        self.real_monitor._init_lock.post_yield = False
+        getattr(self.real_monitor, names.find_attr(self.real_monitor, names.lock_like, '_init_lock')).post_yield = False
         self.monitor = LoggingMonitor(self, self.real_monitor)
         self.reqq = ShimQueue(self, 'reqq')
         self.jobq = ShimQueue(self, 'jobq')
@@ -460,7 +466,7 @@ class Run:
 
     def sample(self, sched):
         """After every scheduler step: C19 at the moment done becomes true."""
-        for t, st in self.real_monitor._transfer_states.items():
+        for t, st in states_of(self.real_monitor).items():
             if st.done and t not in self.done_seen:
                 self.done_seen[t] = sched.step
                 self.check_done(t, 'at-done')
@@ -475,7 +481,7 @@ class Run:
     def check_done(self, t, when):
         m = pp()
         d = self.dl_of(t)
-        st = self.real_monitor._transfer_states[t]
+        st = states_of(self.real_monitor)[t]
         exc = st.exception
         announced = None
         completes = enq = deq = 0
@@ -545,7 +551,7 @@ class Run:
 
     def final_checks(self):
         m = pp()
-        states = self.real_monitor._transfer_states
+        states = states_of(self.real_monitor)
         if self.deadlock:
             # a canceller whose cancel point never came is not part of the pool
             stuck = [x.split(' blocked on ')[0] for x in self.deadlock.split('; ')]
@@ -695,7 +701,7 @@ class Run:
     def outcome(self):
         """coarse outcome of the first transfer, for the coverage histogram"""
         m = pp()
-        st = self.real_monitor._transfer_states.get(0)
+        st = states_of(self.real_monitor).get(0)
         if st is None:
             return 'not-created'
         if not st.done:
@@ -717,7 +723,7 @@ class Run:
                 comp[r['args'][0]] = comp.get(r['args'][0], 0) + 1
                 if r['r'] == 0:
                     zero[r['args'][0]] = zero.get(r['args'][0], 0) + 1
-        for t, st in sorted(self.real_monitor._transfer_states.items()):
+        for t, st in sorted(states_of(self.real_monitor).items()):
             e = st.exception
             if e is None:
                 kind = '-'
